@@ -93,6 +93,9 @@ func (r *Run) lifecycleShutdown() {
 				switch {
 				case st.blank != nil:
 					st.blank.Done(ctx)
+					if st.innerWA != nil {
+						st.innerWA.Done(ctx) // the slot belongs to the inner watcher now
+					}
 				case st.wa != nil:
 					st.wa.Done(ctx)
 				}
